@@ -47,9 +47,8 @@ def main(ck):
     for g in gens:
         src, table = g.emit('@@HEADER@@')
         sources[g.modname] = src
-        tables.update(table)
+        tables[g.modname] = table
     pysrc, pytable = gen.gen_pymodule(gens)
-    tables.update(pytable)
     results = {}
     skipped = 0
     jobs = []
@@ -72,10 +71,10 @@ def main(ck):
         for g in gens:
             if g.modname in bad:
                 continue
-            traced = [fid for fid, t in tables.items() if t['file'] in (g.modname, 'c45py')
-                      and (t['kind'] != 'nogil' or bname == 'both')]
+            mtable = dict(tables[g.modname])
+            mtable.update(pytable)
+            traced = [fid for fid, t in mtable.items() if (t['kind'] != 'nogil' or bname == 'both')]
             roots = [{'name': fn.name, 'fid': fn.fid, 'template': fn.template} for fn in g.fns if fn.kind == 'def']
-            mtable = {k: v for k, v in tables.items() if v['file'] in (g.modname, 'c45py')}
             for obs in observers:
                 jobs.append((bname, d, g.modname, obs, {
                     'builddir': d, 'table': mtable, 'depths': depths, 'observers': [obs],
